@@ -11,7 +11,8 @@ Local Open Scope Z_scope.
 Definition check_1201 (fs : list field) : verdict :=
   match fs with
   | [FZ kind; FZ g; FZ p; FZ calls; FZ eq; FZ inok; FZ descok; FZ retok] =>
-    if (calls <=? 0) || (g <=? 0) || (p <=? 0) then VSkip else
+    (* a line without calls only reports the retention of results handed out in an earlier round *)
+    if (calls <=? 0) && (eq =? 1) && (inok =? 1) && (descok =? 1) && (retok =? 1) then VSkip else
     vand (expect 1 (eq =? 1) [FZ kind; FZ g; FZ p])
    (vand (expect 2 (inok =? 1) [FZ kind; FZ g; FZ p])
    (vand (expect 3 (descok =? 1) [FZ kind; FZ g; FZ p])
